@@ -45,6 +45,8 @@ pub struct Ctx {
     /// state an earlier call may have left behind on the thread
     pub canary: Option<Vec<u8>>,
     pub canary_tick: u64,
+    /// every record the library hands out in a history is also fed back to the decoder monitors (C01/C02/C11)
+    pub judge_lib_made: bool,
     pub pytrace: Vec<Value>,
     pub pytrace_caps: BTreeMap<String, u32>,
 }
@@ -83,6 +85,7 @@ impl Ctx {
             budget_s,
             canary: None,
             canary_tick: 0,
+            judge_lib_made: false,
             pytrace: Vec::new(),
             pytrace_caps: BTreeMap::new(),
         }
